@@ -79,7 +79,7 @@ PROPS = {
                      'broker_handlers_channel', 'broker_handlers_registry', 'broker_handlers_subs', 'broker_handlers_routing',
                      'broker_handlers_bus_listener', 'broker_handlers_shutdown'],
         trusted_base=TB_VERUS + TB_REGISTRY + TB_CONN + [
-            'BusListener::{matches_object, matches_service, matches_new_event, specific_objects, specific_services} are ASSUMED '
+            'BusListener::{specific_objects, specific_services} are ASSUMED '
             'without contract (iterator adapters with closures returning iterators): the unreachable!() arms inside '
             'specific_objects()/specific_services() are guarded by the cached flags, whose correctness (BusListener::flags_ok) IS '
             'proved for every listener in every reachable table (part of bl_inv), but the arms themselves are not checked',
@@ -240,9 +240,10 @@ PROPS = {
         verus_units=['broker_bus_listener', 'broker_handlers_bus_listener'],
         kani=[dict(package='aldrin-core', injections=[KANI_CORE_BUS], jobs=4)],
         trusted_base=TB_VERUS + TB_KANI + ['BusListenerFilter is an opaque hashable key in the Verus unit (key-model axiom)'],
-        assumptions=['WHICH events start_bus_listener / emit_bus_event send is decided by BusListener::{matches_object, '
-                     'matches_service, matches_new_event, specific_objects, specific_services}: iterator-adapter code, assumed without '
-                     'contract; emit_bus_event and process_loop_result are not verified'],
+        assumptions=['BusListener::{matches_object, matches_service, matches_new_event} are verified against the plain filter '
+                     'semantics (some filter of the set matches; started with a scope that includes new entities); the '
+                     'specific-filter enumeration BusListener::{specific_objects, specific_services} (lazy filter_map iterators) is '
+                     'assumed without contract; emit_bus_event and process_loop_result are not verified'],
         undecided_clauses=[
             'that exactly the matching current entities are enumerated, per-connection de-duplication, event ordering',
         ],
